@@ -3,6 +3,8 @@
 // modes: paths-str (all strings over "a./\b" up to length `scale`), paths-comp (component grammar), paths-rel (pairs for getRelativePath),
 //        paths-rand (random longer names), files (operation histories + failpoints), files-alias (the same histories, every path argument
 //        in one of 8 spellings of the same directory entry, plus a sweep of failing calls on a missing name), trees (random trees, create/unlink)
+// Entry names: 3 cases in 4 of mode trees (3 in 8 of files / files-alias) use names that start with one, two or more dots ("..data", "...", "..a3", ".hidden", ".. 1") for
+// files, directories, symbolic links, FIFOs and hard links next to ordinary names: such names are ordinary entries, only "." and ".." themselves are special.
 #include "vh.hpp"
 #include "scratch.hpp"
 #include "../interpose/fs_shims.hpp"
@@ -279,8 +281,8 @@ struct Hnd { File* f; bool open; int ino; long pos; bool r, w; };
 static const char* const SPELL[] = { "plain", "dot-component", "subdir-dotdot", "double-separator", "other-absoluteness", "symlinked-directory", "symlink-to-parent", "parent-and-back" };
 enum { NSPELL = 8 };
 struct FCase {
-  Vec<Ino*> inos; int name[3]; Hnd h[2]; char dir[160]; char pbuf[4][240]; int pk; bool absolute; long idx;
-  const char* path(int i) { char* b = pbuf[pk++ & 3]; snprintf(b, 240, "%s/f%d", dir, i); return b; }
+  Vec<Ino*> inos; int name[3]; Hnd h[2]; char dir[160]; char pbuf[4][240]; int pk; bool absolute; long idx; char leaf[3][16];   // leaf[i] = directory entry name of file i ("f0".."f2", or dot-prefixed names)
+  const char* path(int i) { char* b = pbuf[pk++ & 3]; snprintf(b, 240, "%s/%s", dir, leaf[i]); return b; }
   const char* sub(const char* s) { char* b = pbuf[pk++ & 3]; snprintf(b, 240, "%s/%s", dir, s); return b; }
   // the path argument handed to the library: style 0 is what path()/sub() produce
   const char* spell(const char* leaf, int style) {
@@ -347,7 +349,8 @@ static void verifyDisk() {
   DIR* dp = opendir(F->dir); if (!dp) harnessBug("opendir %s", F->dir);
   while (struct dirent* e = readdir(dp)) {
     const char* n = e->d_name; if (!strcmp(n, ".") || !strcmp(n, "..") || !strcmp(n, "d")) continue;
-    if (n[0] == 'f' && n[1] >= '0' && n[1] <= '2' && !n[2] && F->name[n[1] - '0'] >= 0) continue;
+    int li = -1; for (int i = 0; i < 3; ++i) if (!strcmp(n, F->leaf[i])) li = i;
+    if (li >= 0 && F->name[li] >= 0) continue;
     snprintf(k, sizeof k, "%s/new-file-left-behind", (const char*)ctx); fail(k, "directory entry \"%s\" appeared although no successful operation created it", n);
   }
   closedir(dp); cnt("listing_checks");
@@ -377,6 +380,10 @@ static void fileHistories(bool alias) {
     Rng r(opts.seed, alias ? 1907 : 1905, (u64)idx);
     FCase fc; F = &fc; fc.pk = 0; fc.idx = idx;
     bool absolute = r.chance(1, 4); fc.absolute = absolute;
+    { // names of the three files: ordinary, or starting with dots (ordinary directory entries as well; only "." and ".." are special)
+      static const char* const LEAVES[4][3] = { { "..f0", "..f1", "..f2" }, { "...", "..data", ".hidden" }, { "..a", "f1", "...." }, { ".f0", "f1.", "..2024_03_01" } };
+      int style = (int)r.below(8); for (int i = 0; i < 3; ++i) { if (style < 5) snprintf(fc.leaf[i], sizeof fc.leaf[i], "f%d", i); else snprintf(fc.leaf[i], sizeof fc.leaf[i], "%s", LEAVES[style == 5 ? 0 : 1 + (int)(idx % 3)][i]); }
+      if (style >= 5) { cnt("file_cases_with_dot_prefixed_names"); for (int i = 0; i < 3; ++i) setItem("file_leaf_names", fc.leaf[i]); } }
     if (absolute) snprintf(fc.dir, sizeof fc.dir, "%s/F%ld", scratch::root, idx); else snprintf(fc.dir, sizeof fc.dir, "F%ld", idx);
     char sideLink[200]; snprintf(sideLink, sizeof sideLink, "%s/F%ldL", scratch::root, idx);
     { char p[200]; snprintf(p, sizeof p, "%s/F%ld", scratch::root, idx); scratch::rmrf(p); scratch::rmrf(sideLink); }
@@ -386,7 +393,7 @@ static void fileHistories(bool alias) {
     for (int i = 0; i < 2; ++i) { fc.h[i].f = new File; fc.h[i].open = false; fc.h[i].ino = -1; fc.h[i].pos = 0; fc.h[i].r = fc.h[i].w = false; }
     int nops = (int)r.range(15, 90);
     int w[16]; int tot = 0; for (int i = 0; i < 16; ++i) { w[i] = r.chance(1, 5) ? 0 : (int)r.range(1, 8); } w[0] += 4; w[2] += 3; for (int i = 0; i < 16; ++i) tot += w[i];
-    hist.addf("# file history in %s (names f0..f2, directory d, 2 handles), %d ops\n", fc.dir, nops);
+    hist.addf("# file history in %s (names f0 = \"%s\", f1 = \"%s\", f2 = \"%s\", directory d, 2 handles), %d ops\n", fc.dir, fc.leaf[0], fc.leaf[1], fc.leaf[2], nops);
     int nsweep = 0;
     if (alias) { nsweep = 12; hist.addf("# path arguments in different spellings of the same entry (F%ldL -> F%ld and d/up -> .. are symbolic links); the last %d ops are failing calls on a missing name\n", idx, idx, nsweep); }
     u64 fp = 0; int okMoves = 0, failures = 0; long aliasFailures = 0;
@@ -404,7 +411,7 @@ static void fileHistories(bool alias) {
         if (kind == 12 || kind == 13) { if (r.chance(1, 2)) b = a; }
         s1 = (int)r.below(NSPELL); s2 = (int)((s1 + 1 + (int)r.below(NSPELL - 1)) % NSPELL);
       }
-      char la[8], lb[8]; snprintf(la, sizeof la, "f%d", a); snprintf(lb, sizeof lb, "f%d", b);
+      char la[16], lb[16]; snprintf(la, sizeof la, "%s", fc.leaf[a]); snprintf(lb, sizeof lb, "%s", fc.leaf[b]);
       fp = mix(fp, (u64)kind * 64 + (u64)a * 8 + (u64)b); if (alias) fp = mix(fp, (u64)(s1 * NSPELL + s2));
       int failuresBefore = failures; bool twoPaths = kind >= 12, onePath = kind == 0 || (kind >= 9 && kind <= 11);
       g_inj.on = false;
@@ -548,7 +555,7 @@ static void fileHistories(bool alias) {
       case 14: case 15: { // copy
         bool fie = r.chance(1, 2); int sc = (int)r.below(12), dc = (int)r.below(12);
         if (sweep) sc = 1;
-        if (sc && dc && a == b) { b = (a + 1) % 3; snprintf(lb, sizeof lb, "f%d", b); }   // copying a file onto itself is outside the statement
+        if (sc && dc && a == b) { b = (a + 1) % 3; snprintf(lb, sizeof lb, "%s", fc.leaf[b]); }   // copying a file onto itself is outside the statement
         const char* src = fc.spell(sc == 0 ? "d" : la, s1); const char* dst = fc.spell(dc == 0 ? "nodir/x" : lb, s2);
         bool sEx = sc && fc.name[a] >= 0, dEx = dc && fc.name[b] >= 0;
         long ssize = sEx ? (long)fc.inos[(size_t)fc.name[a]]->d.n : 0;
@@ -632,6 +639,22 @@ static void compareSnap(const Vec<Ent>& a, const Vec<Ent>& b, const char* gone, 
 
 struct TreeGen {
   Rng* r; const char* rootAbs; long files, dirs, linksOut, linksOther; Vec<Ent> dirsList, filesList;   // paths relative to the case root
+  bool dotty;   // this case uses dot-prefixed entry names
+  // name of entry number i of directory `rel`: ordinary name + i, or (dotty cases, every second entry) a name starting with dots: prefix + i, or one of the fixed names
+  // (with + i appended when the directory already has it)
+  void entryName(char* name, size_t cap, const char* rel, int i) {
+    static const char* NM[] = { "a", "b", "c", ".h", "x y", "d.d", "e", "ff" };
+    static const char* DOTP[] = { "..", "...", "..d", ".", ".. ", "..-", "....", ".x.", "..a", "..." };
+    static const char* DOTX[] = { "..data", "...", "..a", ".hidden", "....", "..2024_03_01", ".. ", "..b.c", ".a..", "..x y", ".profile", "..." };
+    if (!dotty || !r->chance(1, 2)) { snprintf(name, cap, "%s/%s%d", rel, NM[r->below(8)], i); return; }
+    if (r->chance(1, 2)) { snprintf(name, cap, "%s/%s%d", rel, DOTP[r->below(10)], i); return; }
+    const char* x = DOTX[r->below(12)]; snprintf(name, cap, "%s/%s", rel, x);
+    char p[600]; snprintf(p, sizeof p, "%s/%s", rootAbs, name); struct stat st; if (lstat(p, &st) == 0) snprintf(name, cap, "%s/%s%d", rel, x, i);
+  }
+  void noteName(const char* name, const char* type) {
+    const char* b = strrchr(name, '/'); b = b ? b + 1 : name; if (b[0] != '.') return;
+    if (b[1] == '.') { cnt("tree_entries_built_with_dotdot_prefixed_name"); setItem("dotdot_prefixed_entry_types_built", type); } else cnt("tree_entries_built_with_dot_prefixed_name");
+  }
   void wfile(const char* rel, long n) { char p[500]; snprintf(p, sizeof p, "%s/%s", rootAbs, rel); int fd = open(p, O_WRONLY | O_CREAT | O_TRUNC, 0644); if (fd < 0) harnessBug("create %s: %s", p, strerror(errno)); u8 buf[512]; while (n > 0) { size_t k = n > 512 ? 512 : (size_t)n; for (size_t i = 0; i < k; ++i) buf[i] = (u8)r->next(); if (write(fd, buf, k) != (ssize_t)k) harnessBug("write %s", p); n -= (long)k; } close(fd); Ent e; memset(&e, 0, sizeof e); snprintf(e.path, sizeof e.path, "%s", rel); filesList.push(e); ++files; }
   void mkd(const char* rel) { char p[500]; snprintf(p, sizeof p, "%s/%s", rootAbs, rel); if (mkdir(p, 0755) != 0) harnessBug("mkdir %s: %s", p, strerror(errno)); Ent e; memset(&e, 0, sizeof e); snprintf(e.path, sizeof e.path, "%s", rel); dirsList.push(e); ++dirs; }
   void lnk(const char* target, const char* rel) {
@@ -642,10 +665,10 @@ struct TreeGen {
   // fill directory `rel` (depth levels below the case root) with random entries
   void fill(const char* rel, int depth, int maxDepth, bool isTree) {
     int n = (int)r->range(depth <= 1 ? 2 : 0, 5); char up[64] = ""; for (int i = 0; i < depth; ++i) strcat(up, "../");
-    static const char* NM[] = { "a", "b", "c", ".h", "x y", "d.d", "e", "ff" };
     for (int i = 0; i < n; ++i) {
-      char name[300]; snprintf(name, sizeof name, "%s/%s%d", rel, NM[r->below(8)], i); char tgt[300];
+      char name[300]; entryName(name, sizeof name, rel, i); char tgt[300];
       int kind = (int)r->below(isTree ? 16 : 6);
+      if (kind != 13 || filesList.n) noteName(name, kind < 3 || (kind < 6 && depth >= maxDepth) ? "file" : kind < 6 ? "directory" : kind < 14 ? "symlink" : kind == 14 ? "fifo" : "hardlink");
       switch (kind) {
       case 0: case 1: case 2: wfile(name, r->chance(1, 10) ? r->range(4000, 9000) : r->range(0, 200)); break;
       case 3: case 4: case 5: if (depth < maxDepth) { mkd(name); fill(name, depth + 1, maxDepth, isTree); } else wfile(name, 3); break;
@@ -674,7 +697,8 @@ static void treeCases() {
     char rootAbs[200]; snprintf(rootAbs, sizeof rootAbs, "%s/T%ld", scratch::root, idx); scratch::rmrf(rootAbs);
     if (mkdir(rootAbs, 0700) != 0 || chdir(rootAbs) != 0) harnessBug("case root %s: %s", rootAbs, strerror(errno));
     hist.addf("# tree case in %s (cwd): outside/ = sentinel, sib/ = sibling tree, tree/ = tree with links out of it\n", rootAbs);
-    TreeGen g; g.r = &r; g.rootAbs = rootAbs; g.files = g.dirs = g.linksOut = g.linksOther = 0;
+    TreeGen g; g.r = &r; g.rootAbs = rootAbs; g.files = g.dirs = g.linksOut = g.linksOther = 0; g.dotty = r.below(4) != 0;
+    if (g.dotty) cnt("tree_cases_with_dot_prefixed_names");
     g.mkd("outside"); g.wfile("outside/o1", 100); g.wfile("outside/o2", 5000); g.mkd("outside/od"); g.wfile("outside/od/deep", 64); g.mkd("outside/od/sub"); g.wfile("outside/od/sub/x", 10); g.fill("outside", 1, 2, false);
     g.mkd("sib"); g.fill("sib", 1, 2, false);
     size_t firstTreeDir = g.dirsList.n, firstTreeFile = g.filesList.n;
@@ -695,18 +719,20 @@ static void treeCases() {
         Vec<int> own; for (size_t i = 0; i < dirs.n; ++i) if (!under(before[(size_t)dirs[i]].path, "outside")) own.push(dirs[i]);
         if (!own.n) continue;
         const char* d0 = before[(size_t)own[r.below(own.n)]].path;
+        // prefixes of the new components: none, or (dotty cases) dots, so that "..n3", ".m", "...k" are created like any other name
+        static const char* const CDOT[] = { "", "", "..", ".", "...", ".. " }; const char* c1 = CDOT[g.dotty ? r.below(6) : 0]; const char* c2 = CDOT[g.dotty ? r.below(6) : 0]; const char* c3 = CDOT[g.dotty ? r.below(6) : 0];
         switch (kind) {
-        case 0: case 1: snprintf(rel, sizeof rel, "%s/n%d/m/k", d0, o); snprintf(made, sizeof made, "%s/n%d", d0, o); cls = "nested-missing-parents"; feasible = strictFeasible = true; break;
+        case 0: case 1: snprintf(rel, sizeof rel, "%s/%sn%d/%sm/%sk", d0, c1, o, c2, c3); snprintf(made, sizeof made, "%s/%sn%d", d0, c1, o); cls = "nested-missing-parents"; feasible = strictFeasible = true; break;
         case 2: snprintf(rel, sizeof rel, "%s", d0); cls = "existing-directory"; feasible = strictFeasible = true; break;
         case 3: if (!files.n) continue; snprintf(rel, sizeof rel, "%s/x/y", before[(size_t)files[r.below(files.n)]].path); cls = "below-a-file"; break;
         case 4: snprintf(rel, sizeof rel, "/proc/nope/x"); cls = "below-proc"; outsideScratch = true; break;
-        case 5: snprintf(rel, sizeof rel, "%s/t%d/u/", d0, o); snprintf(made, sizeof made, "%s/t%d", d0, o); cls = "trailing-separator"; feasible = true; break;
-        case 6: snprintf(rel, sizeof rel, "%s/p%d/./q/../s", d0, o); snprintf(made, sizeof made, "%s/p%d", d0, o); cls = "dot-components"; feasible = true; break;
+        case 5: snprintf(rel, sizeof rel, "%s/%st%d/%su/", d0, c1, o, c2); snprintf(made, sizeof made, "%s/%st%d", d0, c1, o); cls = "trailing-separator"; feasible = true; break;
+        case 6: snprintf(rel, sizeof rel, "%s/%sp%d/./%sq/../%ss", d0, c1, o, c2, c3); snprintf(made, sizeof made, "%s/%sp%d", d0, c1, o); cls = "dot-components"; feasible = true; break;
         case 7: if (!files.n) continue; snprintf(rel, sizeof rel, "%s", before[(size_t)files[r.below(files.n)]].path); cls = "existing-file"; break;
         case 8: if (!links.n) continue; snprintf(rel, sizeof rel, "%s", before[(size_t)links[r.below(links.n)]].path); cls = "existing-symlink"; break;
-        case 9: snprintf(rel, sizeof rel, "single%d", o); snprintf(made, sizeof made, "single%d", o); cls = "one-missing-component"; feasible = strictFeasible = true; break;
+        case 9: snprintf(rel, sizeof rel, "%ssingle%d", c1, o); snprintf(made, sizeof made, "%ssingle%d", c1, o); cls = "one-missing-component"; feasible = strictFeasible = true; break;
         case 10: rel[0] = 0; cls = "empty-string"; break;
-        default: snprintf(rel, sizeof rel, "%s/w%d", d0, o); snprintf(made, sizeof made, "%s/w%d", d0, o); cls = "one-missing-component"; feasible = strictFeasible = true; break;
+        default: snprintf(rel, sizeof rel, "%s/%sw%d", d0, c1, o); snprintf(made, sizeof made, "%s/%sw%d", d0, c1, o); cls = "one-missing-component"; feasible = strictFeasible = true; break;
         }
         if (absolute && !outsideScratch && rel[0]) snprintf(arg, sizeof arg, "%s/%s", rootAbs, rel); else snprintf(arg, sizeof arg, "%s", rel);
         if (under(rel, "outside")) continue;
@@ -720,6 +746,12 @@ static void treeCases() {
         snapshot(rootAbs, after); long dummy = 0;
         compareSnap(before, after, "", false, made, dummy);
         cnt("op_create"); cnt(ret ? "create_true" : "create_false"); setItem("create_classes", cls); ++creates;
+        if (made[0] && (*c1 || (kind <= 1 && (*c2 || *c3)) || (kind == 5 && *c2) || (kind == 6 && (*c2 || *c3)))) { cnt("creates_with_dot_prefixed_components"); if (ret) cnt("creates_with_dot_prefixed_components_true"); }
+        { // Directory::exists on the same argument agrees with stat
+          setctxf("Directory.exists/after-create,%s", isdir ? "directory" : "no-directory"); hist.addf("Directory::exists(\"%s\")\n", arg);
+          bool ex = Directory::exists(String(arg, strlen(arg)));
+          if (ex != isdir) fail(FKEY("result"), "exists returned %d but stat says \"%s\" is %s", (int)ex, arg, isdir ? "a directory" : "not a directory");
+          cnt("op_exists_dir"); }
       } else {
         // ------------------------------------------------------------ Directory::unlink
         const char* cls; bool recursive = true; bool want; bool realDir = false;
@@ -739,17 +771,29 @@ static void treeCases() {
         if (!strcmp(cls, "non-recursive-on-non-empty") && !nonEmpty) continue;
         if (!strcmp(cls, "empty-directory") && nonEmpty) { if (!recursive) realDir = false; cls = "formerly-empty-directory"; }
         if (absolute) snprintf(arg, sizeof arg, "%s/%s", rootAbs, rel); else snprintf(arg, sizeof arg, "%s", rel);
-        long inside = 0, outLinks = 0; for (size_t i = 0; i < before.n; ++i) if (under(before[i].path, rel)) { ++inside; if (before[i].type == 'l') ++outLinks; }
+        long inside = 0, outLinks = 0, dd = 0, sd = 0; bool ddType[5] = { false, false, false, false, false };
+        for (size_t i = 0; i < before.n; ++i) if (under(before[i].path, rel)) {
+          ++inside; if (before[i].type == 'l') ++outLinks;
+          if (strcmp(before[i].path, rel)) { const char* b = strrchr(before[i].path, '/'); b = b ? b + 1 : before[i].path; if (b[0] == '.' && b[1] == '.') { ++dd; const char* tp = strchr("fdlp", before[i].type); if (tp) ddType[tp - "fdlp"] = true; } else if (b[0] == '.') ++sd; }
+        }
         static const int fns[] = { fsshim::F_UNLINK, fsshim::F_RMDIR }; if (realDir && recursive && inside > 3 && kind == 23) planInj(r, fns, 2, 3);
         if (g_inj.on && g_inj.fn == fsshim::F_RMDIR) g_inj.nth = r.range(2, 3);   // the first rmdir is the optimistic attempt on the top directory
-        setctxf("Directory.unlink/%s,%s%s", cls, recursive ? "recursive" : "non-recursive", injTag()); hist.addf("Directory::unlink(\"%s\", %s)   [%ld entries inside, %ld symbolic links]\n", arg, recursive ? "true" : "false", inside, outLinks); injHist();
+        setctxf("Directory.unlink/%s,%s%s", cls, recursive ? "recursive" : "non-recursive", injTag()); hist.addf("Directory::unlink(\"%s\", %s)   [%ld entries inside, %ld symbolic links, %ld names starting with \"..\", %ld other names starting with \".\"]\n", arg, recursive ? "true" : "false", inside, outLinks, dd, sd); injHist();
         arm(); bool ret = Directory::unlink(String(arg, strlen(arg)), recursive); bool inj = disarm();
         want = realDir && !inj;
         if (ret != want) fail(FKEY("result"), "unlink returned %d, expected %d", (int)ret, (int)want);
         snapshot(rootAbs, after); long removed = 0;
         compareSnap(before, after, (want || inj) ? rel : "", want, "", removed);
-        if (want) { struct stat st; if (lstat(rel, &st) == 0) fail(FKEY("tree-not-removed"), "\"%s\" still exists after unlink returned true", rel); cnt("trees_removed"); cnt("entries_removed", removed); cnt("symlinks_inside_removed_trees", outLinks); if (outLinks && inside > 2) removedWithOutLinks = true; }
+        if (want) { struct stat st; if (lstat(rel, &st) == 0) fail(FKEY("tree-not-removed"), "\"%s\" still exists after unlink returned true", rel); cnt("trees_removed"); cnt("entries_removed", removed); cnt("symlinks_inside_removed_trees", outLinks); if (outLinks && inside > 2) removedWithOutLinks = true;
+          cnt("dotdot_prefixed_names_inside_removed_trees", dd); cnt("dot_prefixed_names_inside_removed_trees", sd); if (dd) cnt("trees_removed_containing_dotdot_prefixed_names");
+          static const char* const TN[] = { "file", "directory", "symlink", "fifo" }; for (int i = 0; i < 4; ++i) if (ddType[i]) setItem("dotdot_prefixed_entry_types_removed", TN[i]); }
         cnt("op_unlink_dir"); setItem("unlink_classes", cls);
+        { // Directory::exists on the same argument agrees with stat
+          struct stat st; bool isdir = stat(arg, &st) == 0 && S_ISDIR(st.st_mode);
+          setctxf("Directory.exists/after-unlink,%s", isdir ? "directory" : "no-directory"); hist.addf("Directory::exists(\"%s\")\n", arg);
+          bool ex = Directory::exists(String(arg, strlen(arg)));
+          if (ex != isdir) fail(FKEY("result"), "exists returned %d but stat says \"%s\" is %s", (int)ex, arg, isdir ? "a directory" : "not a directory");
+          cnt("op_exists_dir"); }
       }
       cnt("ops");
     }
